@@ -17,7 +17,7 @@ def sh(cmd, **kw):
 def main():
     prop, i, sid = sys.argv[1], sys.argv[2], sys.argv[3]
     others = sys.argv[4:]
-    w = f"/tmp/seed_{prop}"
+    w = os.environ.get("SEED_DIR_PREFIX", "/tmp/seed_") + prop
     out = f"{w}/out"
     diff, demo, notes = f"{out}/change{i}.diff", f"{out}/demo{i}.py", f"{out}/notes{i}.txt"
     assert os.path.exists(diff) and os.path.exists(demo), "seed files missing"
@@ -38,7 +38,7 @@ def main():
         assert ap.returncode == 0, ap.stderr
         for q in [prop] + others:
             t0 = time.time()
-            r = sh(f"cd {VERIF} && PYVC_NO_EVIDENCE=1 ./check {q}")
+            r = sh(f"cd {VERIF} && PYVC_NO_EVIDENCE=1 timeout 3000 ./check {q}")
             lines = r.stdout.splitlines()
             results[q] = {
                 "exit": r.returncode, "seconds": round(time.time() - t0, 1),
@@ -62,7 +62,7 @@ def main():
         "what_it_needs_to_manifest": open(notes).read().strip() if os.path.exists(notes) else "",
         "confirmed": {"existing_test_suite_with_change": tests, "demo_exit_with_change": with_change.returncode,
                       "demo_exit_on_clean_tree": without.returncode, "all_confirmed": confirmed},
-        "what_was_run": [f"cd /tmp/seed_{prop} && git apply out/change{i}.diff && /venv/bin/python -m pytest -q -p no:cacheprovider; PYTHONPATH=src /venv/bin/python out/demo{i}.py; git checkout -- .; PYTHONPATH=src /venv/bin/python out/demo{i}.py"]
+        "what_was_run": [f"cd {w} && git apply out/change{i}.diff && /venv/bin/python -m pytest -q -p no:cacheprovider; PYTHONPATH=src /venv/bin/python out/demo{i}.py; git checkout -- .; PYTHONPATH=src /venv/bin/python out/demo{i}.py"]
                         + [f"git -C /repo apply seeded/{sid}/patch.diff && ./check {q}; git -C /repo checkout -- ." for q in [prop] + others],
         "checks": results,
         "detected_by": sorted(q for q, r in results.items() if r["exit"] == 1),
